@@ -1,6 +1,6 @@
 #!/bin/bash
 # validates MANIFEST.json and every evidence file against the schemas
-cd "$(dirname "$0")"
+cd "$(dirname "$0")/.."
 python3-vt - <<'PY'
 import json,jsonschema,glob,sys
 m=json.load(open('MANIFEST.json')); jsonschema.validate(m,json.load(open('/root/.vp/MANIFEST.schema.json')))
